@@ -38,12 +38,21 @@ KIND = {'rootB': '/', 'staticB': '/a/b/', 'staticL': '/a/b', 'singleB': '/a/<x>/
         'multiB': '/a/<r*>/', 'multiL': '/a/<r*>'}
 
 
+# the same bound pattern reached through different (prefix, inner pattern) splits of an embedding (Embed.tla: the bound
+# pattern is the concatenation); '/a/b' + '/' makes the embedded application's ROOT route the branch '/a/b/'
+SPLITS = {'rootB': [('/', '/')],
+          'staticB': [('/', '/a/b/'), ('/a', '/b/'), ('/a/b', '/'), ('/a/', '/b/')],
+          'staticL': [('/', '/a/b'), ('/a', '/b')],
+          'singleB': [('/', '/a/<x>/'), ('/a', '/<x>/')], 'singleL': [('/', '/a/<x>'), ('/a', '/<x>')],
+          'multiB': [('/', '/a/<r*>/'), ('/a', '/<r*>/')], 'multiL': [('/', '/a/<r*>'), ('/a', '/<r*>')]}
+
+
 class Log(object):
     def __init__(self):
         self.calls = []
 
 
-def build(cfg, log):
+def build(cfg, log, split=0):
     from clastic import Application, Route, Response
 
     def ep(request, x=None, r=None):
@@ -51,10 +60,13 @@ def build(cfg, log):
         return Response('ok')
     methods = None if cfg['methods'] == 'any' else ['GET']
     from clastic import SubApplication
-    route = Route(KIND[cfg['kind']], ep, methods=methods, slash_mode=cfg['routeMode'])
     if cfg.get('embed'):
+        options = SPLITS[cfg['kind']]
+        prefix, pat = options[split % len(options)]
+        route = Route(pat, ep, methods=methods, slash_mode=cfg['routeMode'])
         inner = Application([route], slash_mode=cfg['innerMode'])
-        return Application([SubApplication('/', inner, inherit_slashes=cfg['inherit'])], slash_mode=cfg['appMode'])
+        return Application([SubApplication(prefix, inner, inherit_slashes=cfg['inherit'])], slash_mode=cfg['appMode'])
+    route = Route(KIND[cfg['kind']], ep, methods=methods, slash_mode=cfg['routeMode'])
     app = Application(slash_mode=cfg['appMode'])
     app.add(route, inherit_slashes=cfg['inherit'])
     return app
@@ -115,7 +127,8 @@ def project(cfg, code, headers, calls, texts_rev, req_query_raw):
 def exchange(cfg, req, texts):
     """returns (o1, o2 or None) projected observations + diagnostics"""
     log = Log()
-    app = build(cfg, log)
+    import zlib
+    app = build(cfg, log, split=zlib.crc32(json.dumps([cfg, req], sort_keys=True).encode('utf8')))
     rev = dict((v, k) for k, v in texts.items())
     p = path_text(req['path'], texts)
     q = QUERY[req['query']]
